@@ -51,7 +51,7 @@ def compare(vec: Dict[str, Any], obs: Dict[str, Any]) -> Outcome:
 PROP = Prop(
     id="C01",
     title="Validation verdict equals the declared schema semantics (pandas)",
-    slices=[slices.SERIES],
+    slices=[slices.SERIES] + slices.FRAME_SLICES,
     compare=compare,
     rule=("TLC enumerates every (schema, data) pair of the exhaustive slices and proves that the staged pipeline "
           "accepts exactly when the declarative meaning Sat holds; every emitted pair is replayed through the real "
